@@ -161,6 +161,86 @@ def scanning_loop(ck):
              found=T.show(at)[:120], required=T.show(want_adv))
 
 
+def blur_keeps_length(ck):
+    """C16.7: blur() hands back exactly len(vector) samples (the correlation and the bin -> coordinate mapping count bins of the
+    un-blurred vector), and every shift 1..radius contributes both directions"""
+    p = ck.ctx.p
+    ck.clause("C16.7", "blur keeps the length: the dilated vector is cut to len(vector); every shift 1..radius is OR-ed in both directions")
+    fn = p.get_function("src.correlation.vectorise:blur")
+    vec = V(fn.params[0].name)
+    n_len = T.mk_call("len", [vec])
+    n = 0
+
+    def core(t):
+        # wrappers that keep the number of samples
+        while True:
+            if t[0] == "call" and t[1] in ("numpy.array", "numpy.asarray", "list", "tuple") and len(t[2]) >= 1:
+                t = t[2][0]
+            elif t[0] == "mcall" and t[2] in ("astype", "copy", "tolist"):
+                t = t[1]
+            elif t[0] in ("lt", "le") and len(t) == 2:
+                t = t[1]
+            else:
+                return t
+
+    for unroll in ((0, 1), (2,)):
+        for pa in explore(ck, fn, unroll=unroll):
+            if pa.outcome != "return" or pa.value is None:
+                continue
+            n += 1
+            w = where(fn, pa.node)
+            t = core(pa.value)
+            cut = t[0] == "slice" and t[2] in (C(None), C(0)) and t[3] == n_len and t[4] in (C(None), C(1))
+            counted = t[0] == "comp" and len(t[3]) == 1 and not t[3][0][1] and t[3][0][0] == T.mk_call("range", [n_len])
+            conv = [x for x in T.subterms(pa.value) if x[0] == "call" and x[1] in ("numpy.convolve", "numpy.correlate",
+                                                                                  "scipy.signal.convolve", "scipy.signal.fftconvolve")]
+            if cut or counted:
+                ck.judge(True, "C16.7", short(fn) + ":length", w, "the blurred vector has len(vector) samples", found=T.show(t)[-60:])
+            elif conv:
+                mode = dict(conv[0][3]).get("mode") or (conv[0][2][2] if len(conv[0][2]) > 2 else C("full" if "convolve" in conv[0][1] else "valid"))
+                ck.violation("C16.7", short(fn) + ":length", w,
+                             f"the blurred vector is the un-cut result of {conv[0][1]}(mode={T.show(mode)}): its length is "
+                             "max(len(vector), 2*radius+1) (or more), not len(vector) - a vector shorter than the kernel grows and is re-centred",
+                             found=T.show(pa.value)[:200], required="exactly len(vector) samples")
+                continue
+            elif t[0] == "comp" and len(t[3]) == 1 and t[3][0][0][0] == "call" and t[3][0][0][1] in ("itertools.zip_longest", "zip"):
+                ck.violation("C16.7", short(fn) + ":length", w,
+                             "the OR of the shifted copies is not cut to len(vector): " +
+                             ("zip_longest runs to len(vector) + radius" if "longest" in t[3][0][0][1] else "zip stops at the shortest copy, len(vector) - radius"),
+                             found=T.show(t)[-120:], required="[...][0:len(vector)]")
+                continue
+            else:
+                raise AnalysisError(f"{w}: the length of blur()'s result is not recognised: {T.show(pa.value)[:200]}")
+            # the shifts: vector[s:] and s*[0] + vector for s in range(1, radius + 1)
+            zl = [x for x in T.subterms(t) if x[0] == "call" and x[1] == "itertools.zip_longest"]
+            if not zl or not zl[0][2] or zl[0][2][0][0] != "star" or zl[0][2][0][1][0] != "list":
+                continue
+            copies = zl[0][2][0][1][1]
+            rng = {x[1] for c0 in copies for x in T.subterms(c0) if x[0] == "elem" and x[1][0] == "call" and x[1][1] == "range"}
+            for r in rng:
+                a = r[2]
+                stop = a[1] if len(a) >= 2 else a[0]
+                start = a[0] if len(a) >= 2 else C(0)
+                radius = V(fn.params[1].name)
+                if stop == radius or (start not in (C(0), C(1)) and start[0] == "c"):
+                    ck.violation("C16.7", short(fn) + ":shifts", w, "the shifts do not run over 1..radius: a bit at distance exactly "
+                                 "radius (or 1) from a label is not set", found=T.show(r), required="range(1, radius + 1)")
+                elif stop != T.p_add(radius, C(1)):
+                    raise AnalysisError(f"{w}: shift range of blur not recognised: {T.show(r)}")
+                else:
+                    ck.judge(True, "C16.7", short(fn) + ":shifts", w, "shifts run over 1..radius", found=T.show(r))
+            ck.judge(vec in copies, "C16.7", short(fn) + ":self", w, "the vector itself is among the OR-ed copies", found=str(len(copies)))
+            shifts = {x[2] for x in copies if x[0] == "slice" and x[1] == vec}
+            pads = {y[2] for x in copies if x[0] == "concat" for y in x[1] if y[0] == "rep"}
+            if shifts or pads:
+                ck.judge(shifts == pads, "C16.7", short(fn) + ":both-directions", w,
+                         "every shift is applied to the left (vector[s:]) and to the right (s*[0] + vector)",
+                         found=f"left {sorted(map(T.show, shifts))} right {sorted(map(T.show, pads))}")
+            fv = dict(zl[0][3]).get("fillvalue", C(None))
+            ck.judge(fv == C(0), "C16.7", short(fn) + ":fill", w, "missing samples of a shorter copy count as 0", found=T.show(fv))
+    ck.floor("C16 blur returns", n, 2)
+
+
 def sequence_is_blurred_vectorisation(ck):
     """C16.6: what the generator hands to the correlation is blur(vectorisePositions(positions, resolution, start, end), blurRadius)
     - nothing cut off, padded or re-sized in between (a label in a trailing partial bin would lose its bit; the bin <-> base-pair
@@ -413,5 +493,6 @@ def run(ck):
             dict(vec[0][3]).get("end") == V("end")
         ck.judge(bool(ok), "C16.2", short(sg), w, "a generator vectorises with its own resolution and blurs with its own radius",
                  found=T.show(v)[:200])
+    blur_keeps_length(ck)
     sequence_is_blurred_vectorisation(ck)
 
